@@ -27,7 +27,7 @@ BOUND = {"quick": "2 bases x {equilibrium, 3 amplitudes x 4 patterns, 2 scales} 
 ASSUMPTIONS = ["KKT tolerance 1e-9 x scale (default path); iterative back-ends: feasible and cost within (1+1e-4) ('lsq') / (1+1e-6) ('lsq_linear') of the certified optimum; scale = max(1,|A|max) x max(1,|b|max)",
                "'lsq_linear' is judged on consistent systems only (as the statement says)",
                "with allow_negatives=True a solution with negative tensions is only required to solve the square system exactly"]
-REQUIRED_TAGS = {"all": ["rawinv_only_last_negative", "rawinv_only_first_negative", "rawinv_only_multiplier_negative", "path:inv", "path:nnls-fallback", "path:lsq", "path:lsq_linear", "rhs:velocity", "unique", "square", "wide", "active_bound", "noisy", "fixture", "angle_limited"]}
+REQUIRED_TAGS = {"all": ["rawinv_only_last_negative", "rawinv_only_first_negative", "rawinv_only_multiplier_negative", "path:inv", "path:nnls-fallback", "path:lsq", "path:lsq_linear", "rhs:velocity", "unique", "square", "wide", "active_bound", "noisy", "fixture", "angle_limited", "defaults_spelled_out"]}
 
 
 def judge(r, method, allow_negatives, consistent, viol, known, tags):
@@ -188,7 +188,8 @@ class Solver(ProductSystem):
                 "method": [None, "lsq", "lsq_linear", "fix_stress"],
                 "map": [["m", 0.05, 0.02], ["id"]],
                 "order": self._orders(base),
-                "limit": ["inf", "excluding"]}
+                "limit": ["inf", "excluding"],
+                "kw": [None, {"use_std": False}, {"verbose": False, "use_std": False}]}      # options spelled out with their default values
 
     def _orders(self, base):
         """cell insertion orders (an environment choice): they decide which interface is the first / last unknown"""
@@ -231,13 +232,15 @@ class Solver(ProductSystem):
                                             {"at": at, "k": 3, "cmap": cm, "post": post1, "time": 0.5, "lab": lab}])
             if ex is not None:
                 return {"viol": [{"what": "ForSys construction raised", "detail": fsutil.exc_str(ex)}], "tags": tags, "cls": "exc"}
-            r = SC.solve_frame(s, 0, at, infos[0], method=cfg["method"], allow_negatives=cfg["neg"], solve_kwargs={"b_matrix": "velocity"})
+            r = SC.solve_frame(s, 0, at, infos[0], method=cfg["method"], allow_negatives=cfg["neg"], solve_kwargs=dict({"b_matrix": "velocity"}, **(cfg["kw"] or {})))
         else:
             lim = np.inf
             if cfg["limit"] == "excluding":
                 from checks import c10
                 lim = c10.angle_limit_for(at, cm) if len(at["C"]) >= 3 else np.inf
-            r = SC.solve_static(at, k=3, cmap=cm, method=cfg["method"], allow_negatives=cfg["neg"], post=post, lab=lab, angle_limit=lim)
+            r = SC.solve_static(at, k=3, cmap=cm, method=cfg["method"], allow_negatives=cfg["neg"], post=post, lab=lab, angle_limit=lim, solve_kwargs=cfg["kw"])
+        if cfg["kw"]:
+            tags.append("defaults_spelled_out")
         if cfg["method"] == "lsq_linear" and not consistent:
             return {"viol": [], "tags": tags + ["lsq_linear_inconsistent_no_verdict"], "cls": "lsq_linear-inconsistent", "outdom": True}
         if r.exc is not None:
